@@ -52,7 +52,11 @@ DumpVal(T, v) ==
                         vs |-> [i \in 1..Len(v.vs) |-> DumpVal(T.a[2], v.vs[i])]]
     [] T.k = "tuple_fix" -> [c |-> "tuple", xs |-> [i \in 1..Len(v.xs) |-> DumpVal(T.a[i], v.xs[i])]]
     [] T.k = "union" -> LET i == Dispatch(T, v) IN IF i = 0 THEN [c |-> "nodumper", a |-> "x"] ELSE DumpVal(T.a[i], v)
-    [] T.k = "literal" -> v        \* "Dumper will return value without any processing"
+    \* "Dumper will return value without any processing excluding Enum instances, they will be processed via the corresponding
+    \*  dumper.  bytes instances also will be processed via the corresponding dumper."
+    [] T.k = "literal" -> IF IsAtom(v) /\ v.a \in DOMAIN EnumValueTok THEN Atom(EnumValueTok[v.a])
+                          ELSE IF IsAtom(v) /\ PyTypeOf[v.a] = "bytes" THEN ScalarDump("bytes", v)
+                          ELSE v
     [] T.k \in {"newtype", "annotated"} -> DumpVal(T.a[1], v)
 
 \* the outer form as a datum of the token universe; Defined(..) = FALSE when some scalar form is not a token
